@@ -6,6 +6,7 @@ from . import logic as L
 VERIF = os.path.dirname(os.path.dirname(os.path.abspath(__file__)))
 CVC5 = '/usr/bin/cvc5'
 Z3NEW = 'z3-new'
+MAX_REPLAYS = 10
 
 
 class Case(object):
@@ -154,6 +155,9 @@ class Report(object):
         self.bounded = []
         self.extra = {}
         self.t0 = time.time()
+        self.seen_classes = {}
+        self.duplicates = []
+        self.replays_run = 0
 
 
 def load_known(prop):
@@ -272,7 +276,8 @@ def _discharge(ob, formula, case, path, rep, known):
                 hit[0].setdefault('_matched', []).append(ob.id)
                 rep.obs.append(ob)
             else:
-                _finish_failed(ob, rep, case, path, None, 'ground clause evaluated to False', known, append=True)
+                r0, m0, _ = _sat(case, path, [])      # any input on this path is a witness
+                _finish_failed(ob, rep, case, path, m0 if r0 == z3.sat else None, 'ground clause evaluated to False', known, append=True)
         ob.secs = time.time() - t0
         return
     excl = [L.Not(r) for e, r in regions if not (r is False)]
@@ -321,23 +326,42 @@ def _sat(case, path, extra):
 def _finish_failed(ob, rep, case, path, model, why, known, append=True):
     ob.status = 'failed'
     ob.detail = why
+    if model is None:
+        try:
+            r0, model, _ = _sat(case, path, [])      # any input on this path is a witness
+        except Exception:
+            model = None
     vals = _model_values(model, case.inputs) if model is not None else {k: v for k, v in case.inputs.items()
                                                                          if isinstance(v, (int, str, bool, float, type(None)))}
     ob.model = vals
     rep.obs.append(ob)
     c = ob.contract
-    os.makedirs(os.path.join(VERIF, 'replays'), exist_ok=True)
-    fn = os.path.join(VERIF, 'replays', '%s_%s.json' % (rep.prop, hashlib.sha1(ob.id.encode()).hexdigest()[:10]))
+    rdir = os.environ.get('VF_REPLAY_DIR') or os.path.join(VERIF, 'replays')
+    os.makedirs(rdir, exist_ok=True)
+    fn = os.path.join(rdir, '%s_%s.json' % (rep.prop, hashlib.sha1(ob.id.encode()).hexdigest()[:10]))
     doc = {'property': rep.prop, 'obligation': ob.id, 'contract': c.id, 'module': c.__dict__.get('_module', None),
            'targets': c.target, 'config': {k: _short(v) for k, v in ob.cfg.items()}, 'config_index': ob.cfg.get('_index'),
            'inputs': vals, 'why': why, 'path_condition': [str(x) for x in path.pc],
            'decisions': [[a if isinstance(a, (int, bool)) else str(a), b] for a, b in path.decisions], 'tier': rep.tier, 'clause': ob.clause, 'ghost_trace': [str(g) for g in path.ghost],
            'solver_output': str(model) if model is not None else why}
     reproduced = None
+    cls = (c.id, cfg_label(ob.cfg), ob.clause)
+    if cls in rep.seen_classes:
+        # same (contract, configuration, clause) already reported on another path: recorded, not replayed again
+        doc['native'] = {'note': 'another path of the same obligation class was replayed: %s' % rep.seen_classes[cls]}
+        with open(fn, 'w') as f:
+            json.dump(doc, f, indent=1, default=str)
+        rep.duplicates.append((ob, fn))
+        return
+    rep.seen_classes[cls] = os.path.basename(fn)
     if c.replay is not False:
         with open(fn, 'w') as f:
             json.dump(doc, f, indent=1, default=str)
-        reproduced, native = run_replay(fn)
+        if rep.replays_run < MAX_REPLAYS:
+            rep.replays_run += 1
+            reproduced, native = run_replay(fn)
+        else:
+            reproduced, native = 'skipped', {'note': 'replay cap (%d) reached; run ./check %s --replay %s' % (MAX_REPLAYS, rep.prop, fn)}
         doc['native'] = native
     with open(fn, 'w') as f:
         json.dump(doc, f, indent=1, default=str)
